@@ -935,8 +935,9 @@ Definition run_command (name : list Z) (keys : list Z) (mem_kind : bool) (max_en
       (fix go (k : nat) (e : ed) : res ed :=
          match k with
          | O => Ok e
-         | S k' => do c <- idx 312 (line e) (c_pos e - 1);
-                   if c =? 10 then Ok e else go k' (c_dec (c_check_append e))
+         | S k' => if c_pos e =? 0 then Ok e
+                   else do c <- idx 312 (line e) (c_pos e - 1);
+                        if c =? 10 then Ok e else go k' (c_dec (c_check_append e))
          end) (times_nat n) e
   else if is "vi-forward-word"%string then
     do e <- h_save e;
